@@ -20,5 +20,7 @@ let () =
       of_result (fun z -> VI z) (Model.c03_privkey_int (vi n) (vb k)) | _ -> raise (Bad "arity"));
   register "c03_compute_point" (function [p; a; n; g; k] ->
       of_result of_point (Model.c03_compute_point (vi p) (vi a) (vi n) (vpoint g) (vb k)) | _ -> raise (Bad "arity"));
+  register "c03_pub" (function [p; a; n; g; k; c] ->
+      of_result (fun b -> VB b) (Model.c03_pub (vi p) (vi a) (vi n) (vpoint g) (vb k) (vbool c)) | _ -> raise (Bad "arity"));
   register "c03_key_of_draw" (function [d] ->
       of_result (fun b -> VB b) (Model.c03_key_of_draw (vi d)) | _ -> raise (Bad "arity"))
